@@ -28,8 +28,12 @@ func (it *Interp) termVars(t *smt.Term) []string {
 	m := map[string]*smt.Term{}
 	t.Vars(m, map[int64]bool{})
 	out := make([]string, 0, len(m))
-	for k := range m {
+	if it.varByName == nil {
+		it.varByName = map[string]*smt.Term{}
+	}
+	for k, vt := range m {
 		out = append(out, k)
+		it.varByName[k] = vt
 	}
 	it.varCache[t.ID] = out
 	return out
@@ -64,6 +68,16 @@ func (it *Interp) addPC(t *smt.Term) {
 		return
 	}
 	vs := it.termVars(t)
+	if it.freshBefore == nil {
+		it.freshBefore = map[string]bool{}
+	}
+	for _, v := range vs {
+		if _, known := it.dsu[v]; !known {
+			it.freshBefore[v] = true
+		} else {
+			delete(it.freshBefore, v)
+		}
+	}
 	for i := 1; i < len(vs); i++ {
 		it.union(vs[0], vs[i])
 	}
@@ -71,6 +85,44 @@ func (it *Interp) addPC(t *smt.Term) {
 		it.find(v)
 	}
 	it.pc = append(it.pc, pcEntry{t: t, vars: vs})
+	it.learnEq(t)
+	// keep the cached model a model of the whole path condition
+	if h, ok := it.holdsInModel(t); !ok || !h {
+		if it.candFor == t && it.candModel != nil {
+			it.mergeModel(it.candModel)
+		} else if it.isFreshLiteral2(t) {
+			it.setLiteral(t)
+		} else {
+			res, m := it.checkModel(t, true)
+			if res == smt.Sat {
+				it.mergeModel(m)
+			} else {
+				it.model = nil // no model known (replayed prefix with an undecided step); rebuilt lazily
+				it.modelBroken = true
+			}
+		}
+	}
+	it.candFor, it.candModel = nil, nil
+}
+
+// isFreshLiteral2: t is a boolean variable or its negation (its value can be set directly in the model).
+func (it *Interp) isFreshLiteral2(t *smt.Term) bool {
+	x := t
+	if x.Op == "not" {
+		x = x.Args[0]
+	}
+	return x.Op == "var" && x.Sort == 0 && it.freshBefore[x.Name]
+}
+
+func (it *Interp) setLiteral(t *smt.Term) {
+	if it.model == nil {
+		it.model = map[string]uint64{}
+	}
+	if t.Op == "not" {
+		it.model[t.Args[0].Name] = 0
+	} else {
+		it.model[t.Name] = 1
+	}
 }
 
 // sliceFor returns the conjuncts of the path condition relevant to the given terms.
@@ -110,13 +162,57 @@ func (it *Interp) fullPC() []*smt.Term {
 	return out
 }
 
-// check decides pc AND extra using only the relevant slice of pc.
+// check decides pc AND extra using only the relevant slice of pc. On sat the cached model (which always
+// satisfies the whole path condition) is NOT changed; use checkKeep for that.
 func (it *Interp) check(extra *smt.Term) smt.Result {
-	res, _, err := it.Solver.Check(extra, it.sliceFor(extra), nil)
+	res, _ := it.checkModel(extra, false)
+	return res
+}
+
+// checkModel is check that also returns, on sat, the values of the variables of the slice.
+func (it *Interp) checkModel(extra *smt.Term, want bool) (smt.Result, map[string]uint64) {
+	slice := it.sliceFor(extra)
+	var vars []*smt.Term
+	if want {
+		seen := map[string]bool{}
+		add := func(t *smt.Term) {
+			for _, v := range it.termVars(t) {
+				if !seen[v] {
+					seen[v] = true
+					vars = append(vars, it.varByName[v])
+				}
+			}
+		}
+		for _, c := range slice {
+			add(c)
+		}
+		if extra != nil {
+			add(extra)
+		}
+	}
+	res, m, err := it.Solver.Check(extra, slice, vars)
 	if err != nil {
 		panic(pathEnd{Kind: "unsupported", Label: "solver", Msg: err.Error()})
 	}
-	return res
+	return res, m
+}
+
+// holdsInModel evaluates t under the cached model of the path condition.
+func (it *Interp) holdsInModel(t *smt.Term) (bool, bool) {
+	if it.model == nil {
+		it.model = map[string]uint64{}
+	}
+	v, ok := smt.Eval(t, it.model, map[int64]uint64{})
+	return v != 0, ok
+}
+
+func (it *Interp) mergeModel(m map[string]uint64) {
+	if it.model == nil {
+		it.model = map[string]uint64{}
+	}
+	for k, v := range m {
+		it.model[k] = v
+	}
 }
 
 // modelOf returns values for all nondet variables in a model of the whole pc AND extra.
@@ -142,6 +238,7 @@ func (it *Interp) isFreshLiteral(t *smt.Term) bool {
 }
 
 // feasible asks whether pc AND t is satisfiable; unknown counts as feasible (kept, reported).
+// The cached model answers the question for free when it happens to satisfy t.
 func (it *Interp) feasible(t *smt.Term) bool {
 	if t.IsTrue() {
 		return true
@@ -152,10 +249,23 @@ func (it *Interp) feasible(t *smt.Term) bool {
 	if it.isFreshLiteral(t) {
 		return true
 	}
+	if v, ok := it.knownTruth(t); ok {
+		it.modelHits++
+		return v
+	}
+	if h, ok := it.holdsInModel(t); ok && h {
+		it.modelHits++
+		return true
+	}
 	it.nBranchQ++
-	res := it.check(t)
+	res, m := it.checkModel(t, true)
 	if res == smt.Unknown {
 		it.unknownBranches++
+	}
+	if res == smt.Sat {
+		// remember a model of pc AND t: if the caller commits to t, it becomes the cached model
+		it.candModel = m
+		it.candFor = t
 	}
 	return res != smt.Unsat
 }
@@ -200,4 +310,106 @@ func (it *Interp) flushAsserts() {
 			it.addPC(p.cond)
 		}
 	}
+}
+
+// learnEq remembers what the path condition says about terms compared with constants (x == c, x != c).
+func (it *Interp) learnEq(t *smt.Term) {
+	neg := false
+	if t.Op == "not" {
+		neg = true
+		t = t.Args[0]
+	}
+	if t.Op != "=" || t.Args[0].Sort == 0 {
+		return
+	}
+	a, b := t.Args[0], t.Args[1]
+	if b.Op != "const" {
+		a, b = b, a
+	}
+	if b.Op != "const" || a.Op == "const" {
+		return
+	}
+	if neg {
+		if it.excluded == nil {
+			it.excluded = map[int64]map[uint64]bool{}
+		}
+		if it.excluded[a.ID] == nil {
+			it.excluded[a.ID] = map[uint64]bool{}
+		}
+		it.excluded[a.ID][b.Val] = true
+		return
+	}
+	if it.pinned == nil {
+		it.pinned = map[int64]uint64{}
+	}
+	it.pinned[a.ID] = b.Val
+}
+
+// iteLeaves returns the constant leaves of an ite tree, or nil if some leaf is not a constant.
+func (it *Interp) iteLeaves(t *smt.Term) map[uint64]bool {
+	if it.leafCache == nil {
+		it.leafCache = map[int64]map[uint64]bool{}
+	}
+	if l, ok := it.leafCache[t.ID]; ok {
+		return l
+	}
+	var res map[uint64]bool
+	switch t.Op {
+	case "const":
+		res = map[uint64]bool{t.Val: true}
+	case "ite":
+		l1, l2 := it.iteLeaves(t.Args[1]), it.iteLeaves(t.Args[2])
+		if l1 != nil && l2 != nil {
+			res = map[uint64]bool{}
+			for k := range l1 {
+				res[k] = true
+			}
+			for k := range l2 {
+				res[k] = true
+			}
+		}
+	}
+	it.leafCache[t.ID] = res
+	return res
+}
+
+// knownTruth decides (x == c) and its negation without the solver when the path condition pins x, excludes c,
+// or x is an ite tree over constants that cannot take (or can only take) the value c.
+func (it *Interp) knownTruth(t *smt.Term) (bool, bool) {
+	if t.Op == "not" {
+		v, ok := it.knownTruth(t.Args[0])
+		return !v, ok
+	}
+	if t.Op != "=" || t.Args[0].Sort == 0 {
+		return false, false
+	}
+	a, b := t.Args[0], t.Args[1]
+	if b.Op != "const" {
+		a, b = b, a
+	}
+	if b.Op != "const" || a.Op == "const" {
+		return false, false
+	}
+	if v, ok := it.pinned[a.ID]; ok {
+		return v == b.Val, true
+	}
+	ex := it.excluded[a.ID]
+	if ex[b.Val] {
+		return false, true
+	}
+	if leaves := it.iteLeaves(a); leaves != nil {
+		if !leaves[b.Val] {
+			return false, true
+		}
+		left := 0
+		for k := range leaves {
+			if !ex[k] {
+				left++
+			}
+		}
+		if left == 1 {
+			return true, true
+		}
+	}
+	return false, false
 }
